@@ -70,6 +70,7 @@ func roundTripValue(v px.Value, o *Obs) {
 	o.Out = hx(text)
 	firstToken(text, o.Aux)
 	parseObs(text, o.Aux)
+	o.Aux["pprinted"] = "1" // the text is what the value printer wrote (tie of print_lit, Model/LiteralText.v)
 	var pv px.Value
 	c, m = guard(func() {
 		pcore.Do(func(ctx px.Context) {
